@@ -34,7 +34,7 @@ J_seq(frames, e, d1, o1, d2, o2) ==
 \* C16 for a single complete frame
 J_one(f, e, d2) ==
     IF d2 < Len(f) THEN (IF Len(e.out) > 0 THEN "reply-sent-before-the-request-is-complete" ELSE "ok")
-    ELSE ReplyVerdict(f, IF handler = "errShared" THEN "errTyped" ELSE handler, e.out)
+    ELSE ReplyVerdict(f, IF handler = "errShared" THEN "errTyped" ELSE IF handler = "errRelayed" THEN "errGeneric" ELSE handler, e.out)
 
 J_segment(e) ==
     LET c == e.conn
